@@ -10,6 +10,8 @@
 package consensus
 
 import (
+	"time"
+
 	"github.com/hashicorp/raft"
 )
 
@@ -29,6 +31,9 @@ func (n *RaftNode) VerifBalloonVersion() uint64 { return n.balloon.Version() }
 
 // VerifRaftStats exposes raft's stats map (applied_index, commit_index, ...).
 func (n *RaftNode) VerifRaftStats() map[string]string { return n.raft.Stats() }
+
+// VerifBarrier waits until every entry committed so far has been applied by the FSM (leader only).
+func (n *RaftNode) VerifBarrier(d time.Duration) error { return n.raft.Barrier(d).Error() }
 
 // VerifRaftAddr returns the raft address other nodes use as seed.
 func (n *RaftNode) VerifRaftAddr() string { return n.info.RaftAddr }
